@@ -751,6 +751,30 @@ func (r *vf6Run) doAction(raw json.RawMessage) (act []interface{}, res string, i
 	case "resetconv":
 		r.bumpGen(str(1))
 		res = vf6ErrClass(mgr.ResetConverter(filepath.Join(mgr.ConverterDir, str(1))))
+	case "failmerge":
+		// ["failmerge"] : a merge job is parked at its start: its output path (named after the newest index) is blocked
+		// by a directory, so this merge -- and every later one that ends with the same index -- fails
+		res = "noop"
+		for _, j := range r.parked() {
+			if j.kind == "merge" && j.phase == 0 {
+				c := make(chan string, 1)
+				mgr.jobs <- func() {
+					if len(mgr.indexes) == 0 {
+						c <- ""
+						return
+					}
+					c <- mgr.indexes[len(mgr.indexes)-1].Filename()
+				}
+				newest := <-c
+				res = "ok"
+				if newest == "" {
+					res = "noop"
+				} else if e := os.Mkdir(strings.TrimSuffix(newest, ".idx")+".m0.idx", 0o755); e != nil && !os.IsExist(e) {
+					res = "err:" + e.Error()
+				}
+				break
+			}
+		}
 	case "convreset":
 		// ["convreset", conv] : the parked converter job passes its start gate and, while its conversions are running,
 		// the converter is restarted (new executable generation, ResetConverter)
